@@ -244,12 +244,23 @@ def _run(op: str, a: list) -> str:
         readings = [now_a, now_b]
 
         class FakeDT(_dt.datetime):
+            """the clock, however the library reads it: utcnow(), now(tz), today()"""
             @classmethod
             def utcnow(cls):
                 return readings.pop(0) if readings else now_b
 
-        old = common.datetime
-        common.datetime = FakeDT
+            @classmethod
+            def now(cls, tz=None):
+                r = readings.pop(0) if readings else now_b
+                return r if tz is None else r.replace(tzinfo=_dt.timezone.utc).astimezone(tz)
+
+            @classmethod
+            def today(cls):
+                return readings.pop(0) if readings else now_b
+
+        patched = [m for m in (common, mc) if getattr(m, "datetime", None) is _dt.datetime]      # wherever the library bound the class
+        for m in patched:
+            m.datetime = FakeDT
         try:
             kw = {k: materialize(v) for k, v in params.items() if not (isinstance(v, proto.Opaque) and v.tag == 99)}
             f = mc.build_delegating_metadata if which == "delegating" else mc.build_root_metadata
@@ -258,7 +269,8 @@ def _run(op: str, a: list) -> str:
             except Exception as e:  # noqa: BLE001
                 return "E " + classify(e)
         finally:
-            common.datetime = old
+            for m in patched:
+                m.datetime = _dt.datetime
     if op == "key":
         fn, rest = a[0], a[1:]
         C, P = common.PrivateKey, common.PublicKey
